@@ -267,6 +267,13 @@ def judge_scale(case):
             pass
         # MPD uses arccos: near 0 its sensitivity to rounding is ~sqrt(eps)
         t = tol if name != "MPD" else 2e-7 / max(aniso, 1e-3) + 1e-6
+        if name == "MPC":
+            # the mean removal cancels leading digits when the components are nearly equal
+            cen = np.linalg.norm(z - z.mean())
+            t = tol + 1e-13 * (np.linalg.norm(z) / max(cen, 1e-300)) ** 2
+            if not t < 1e-3:
+                j.skip("MPC-nearly-equal-components")
+                continue
         j.check(abs(a - b) <= t, f"{name}-scale", lambda: f"{name}(phi)={a!r} {name}(c*phi)={b!r} c={c!r} n={len(z)}")
     w = _z(case["psi"])
     n = min(len(w), len(z))
@@ -369,13 +376,17 @@ SUBS = [
 
 # known-finding predicates: (case, label, msg) -> bool
 def _mpc_all_equal(case, label, msg):
+    """components equal (exactly, or up to differences that underflow when squared): the mean-removed
+    scatter matrix np.cov(re, im) is exactly zero and MPC = 0/0"""
     if label not in ("collinear-MPC", "MPC-bounds"):
         return False
     if "v" in case:
-        v = np.asarray(case["v"], dtype=float)
-        return bool(np.all(v == v[0]))
-    z = _z(case["phi"])
-    return bool(np.all(z == z[0]))
+        z = np.asarray(case["v"], dtype=float) * _c(case["c"])
+    else:
+        z = _z(case["phi"])
+    with np.errstate(all="ignore"):
+        S = np.cov(z.real, z.imag)
+    return bool(np.all(S == 0))
 
 
 KNOWN = {"mpc_all_components_equal": _mpc_all_equal}
